@@ -222,7 +222,7 @@ def gen_desc(rng, size="small"):
             for _ in range(rng.randint(1, 2)):
                 tgt = rng.choice(sp)
                 nt = rng.randint(1, 2)
-                om[tgt] = {"factors": [rng.choice(["-2.0", "1.5 * k[0]", "zeta", "(nH + 1.0)", "-k[0]"]) for _ in range(nt)],
+                om[tgt] = {"factors": [rng.choice(["-2.0", "1.5 * k[0]", "zeta", "(nH + 1.0)", "-k[0]", "-zeta + nH", "-2.0 - k[0]"]) for _ in range(nt)],
                            "reactants": [[rng.choice(sp) for _ in range(rng.randint(1, 3))] for _ in range(nt)]}
             desc["ode_modifier"] = om
     return desc
